@@ -17,6 +17,7 @@ LEVEL_TEXT = (
     "18-vector of get_mom_ts_1d is allocated with 18 entries, every index 0..17 is stored, and nan_to_num is applied to "
     "that very array (in place, or its result returned) after its last store on every path to the return. The numerical "
     "solution of the sparse system and the finiteness of third-party statistics are not decided."
+    ' (R5) argument checks of the filters and of the summary do not cut into the stated domain: a value guard separates at zero (no tolerance), a length guard accepts every stated length.'
 )
 TECHNIQUE = "formula normal forms of constructor/return expressions + must-pass-through CFG query"
 
